@@ -105,7 +105,8 @@ def run(cx):
     cx.rule("C14.R3", "growth decision sees enqueued work: execute() counts the job before Sender::send makes it visible, reads that counter afterwards, and grows whenever jobs > workers (busy - len >= c with c <= 1) and len < max")
     cx.rule("C14.R4", "counter pairing: one increment per job (producer side, none in the worker) and one decrement on every normal path from the job's return to the next dequeue")
     ex = cx.mir.one("varlink", EXEC)
-    wk = cx.mir.one("varlink", WORKER)
+    from .roles import pool_worker
+    wk = pool_worker(cx)
     cx.saw(ex); cx.saw(wk)
     cfg = Cfg(ex); du = DefUse(ex)
     # ---- R1
